@@ -12,7 +12,7 @@ use std::{i128, mem};
 
 use crate::core::consensus::blockchain::Blockchain;
 use crate::core::consensus::burnfee::BurnFee;
-use crate::core::consensus::golden_ticket::GoldenTicket;
+use crate::core::consensus::golden_ticket::{GoldenTicket, GOLDEN_TICKET_SIZE};
 use crate::core::consensus::hop::HOP_SIZE;
 use crate::core::consensus::merkle::MerkleTree;
 use crate::core::consensus::slip::{Slip, SlipType, SLIP_SIZE};
@@ -1313,6 +1313,17 @@ impl Block {
                     fee_transaction_index = i as u64;
                 }
                 TransactionType::GoldenTicket => {
+                    if transaction.data.len() != GOLDEN_TICKET_SIZE {
+                        warn!(
+                            "golden ticket in block {} has an invalid length : {}",
+                            self.id,
+                            transaction.data.len()
+                        );
+                        return Err(Error::new(
+                            ErrorKind::InvalidData,
+                            "invalid golden ticket",
+                        ));
+                    }
                     has_golden_ticket = true;
                     golden_ticket_index = i as u64;
                 }
